@@ -62,6 +62,15 @@ def _inputs(draw, prog, classes, iv, cluster=None):
 @st.composite
 def histories(draw):
     srcs = [draw(_source()) for _ in range(draw(st.integers(2, 3)))]
+    if draw(st.integers(0, 2)) == 0:
+        # the second source is a NEIGHBOUR of the first (it differs only in blanks / case / a comment look-alike inside a string)
+        from .. import neighbours
+
+        nbs = neighbours.neighbours(srcs[0]["prog"])
+        if nbs:
+            _, a, b = nbs[draw(st.integers(0, len(nbs) - 1))]
+            srcs[0] = dict(srcs[0], prog=a)
+            srcs[1] = dict(srcs[0], prog=b)
     inputs = []
     for sk in srcs:
         iv = gen.interesting_values(sk["prog"], sk["classes"])
@@ -265,9 +274,32 @@ def fixed_histories():
         yield {"sources": [prog, prog], "inputs": [inputs, inputs], "ops": ops, "plain": True}
 
 
+def neighbour_histories():
+    """two sources that differ only in blanks / after a // / in letter case inside a string: an evaluator cycled A -> B -> A
+    must agree with fresh evaluators of A and of B at every stage"""
+    pairs = [("spring sale", "spring  sale"), ("https://x.example/a", "https://x.example/b"), ("v /* 1 */", "v /* 2 */"), ("Exp", "exp"),
+             ("s", "s "), ("tab\there", "tab here")]
+    for i, (s1, s2) in enumerate(pairs):
+        def prog(salt, lab):
+            return M.program("exp", M.ret([(M.lit_str(lab), "1")] + [(M.lit_str("g%d" % j), "1") for j in range(15)]), salt=salt, splitters=["uid"])
+        variants = [(prog(s1, "L"), prog(s2, "L")), (prog("k", s1), prog("k", s2))]
+        for a, b in variants:
+            inputs = [M.enc_inputs({"uid": "unit-%d" % j}) for j in range(12)]
+            n = len(inputs)
+            ops = [["call", 0, 0, j] for j in range(n)] + [["call", 1, 1, j] for j in range(n)]          # fresh A (ev0), fresh B (ev1)
+            ops += [["recompile", 0, 1, 0]] + [["call", 0, 1, j] for j in range(n)]                      # ev0: A -> B
+            ops += [["recompile", 0, 0, 0]] + [["call", 0, 0, j] for j in range(n)]                      # ev0: B -> A
+            ops += [["cycle", 1, 0, 3]] + [["call", 1, 1, j] for j in range(n)]                          # ev1: B -> A -> B
+            yield {"sources": [a, b], "inputs": [inputs, inputs], "ops": ops, "plain": True}
+
+
 def run(ctx, rec):
     if ctx.shard == 0 and not k1_probe(rec):
         return
+    if ctx.shard == 0:
+        runner.direct_run(ctx, rec, "neighbour-histories", neighbour_histories(), judge)
+        if rec.violations:
+            return
     if ctx.shard == 0:
         runner.direct_run(ctx, rec, "fixed-histories", fixed_histories(), judge)
         if rec.violations:
